@@ -44,13 +44,16 @@ def repo_fingerprint(repo):
     return h.hexdigest()
 
 
+DEP_PACKAGES = ['integer-encoding']
+
+
 def expand(repo, cache_dir, features='async'):
     """Run `cargo +nightly rustc -- -Zunpretty=expanded` on the current working tree of `repo`.
     The result is cached by the sha256 of every file under src/ plus Cargo.toml/Cargo.lock, so a
     cache hit is only possible for a byte-identical source tree."""
     fp = repo_fingerprint(repo)
     os.makedirs(cache_dir, exist_ok=True)
-    cached = os.path.join(cache_dir, f'expanded-{features or "default"}-{fp[:24]}.rs')
+    cached = os.path.join(cache_dir, f'expanded2-{features or "default"}-{fp[:24]}.rs')
     if os.path.exists(cached):
         return open(cached).read(), {'fingerprint': fp, 'cache_hit': True, 'wall_s': 0.0}
     scratch = os.path.join(cache_dir, f'exp-target-{os.getpid()}')
@@ -65,18 +68,44 @@ def expand(repo, cache_dir, features='async'):
     shutil.rmtree(scratch, ignore_errors=True)
     if p.returncode != 0 or not p.stdout.strip():
         raise ExtractionError('macro expansion of /repo failed (does the tree compile?):\n' + p.stderr[-3000:])
+    out_text = p.stdout
+    # rule D5: the dependencies whose functions are put under contract themselves (units/varint_dep.vrs) are expanded the same way
+    # -- the version /repo's Cargo.lock resolves to -- and appended as `mod __dep_<name> { .. }`; the raw source files (with the
+    # cfg-gated async twins that a default-feature expansion does not contain) are appended as `mod __raw_<file> { .. }` inside it
+    for pkg in DEP_PACKAGES:
+        scratch = os.path.join(cache_dir, f'exp-target-{os.getpid()}')
+        pd = subprocess.run(['cargo', '+nightly', 'rustc', '--offline', '-p', pkg, '--profile', 'check', '--target-dir', scratch,
+                             '--', '-Zunpretty=expanded'], cwd=repo, capture_output=True, text=True, env=env)
+        shutil.rmtree(scratch, ignore_errors=True)
+        mod = '__dep_' + pkg.replace('-', '_')
+        if pd.returncode != 0 or not pd.stdout.strip():
+            out_text += f'\nmod {mod} {{ }}\n'      # functions of the dependency will be reported as not found (UNDECIDED)
+            continue
+        raw = ''
+        try:
+            md = subprocess.run(['cargo', 'metadata', '--offline', '--format-version', '1'], cwd=repo, capture_output=True, text=True, env=env)
+            import json as _json
+            for pk in _json.loads(md.stdout)['packages']:
+                if pk['name'] == pkg:
+                    srcdir = os.path.join(os.path.dirname(pk['manifest_path']), 'src')
+                    for f in sorted(os.listdir(srcdir)):
+                        if f.endswith('.rs') and not f.endswith('_tests.rs') and f != 'lib.rs':
+                            raw += f'\nmod __raw_{f[:-3]} {{\n' + open(os.path.join(srcdir, f)).read() + '\n}\n'
+        except Exception:
+            raw = ''
+        out_text += f'\nmod {mod} {{\n' + pd.stdout + raw + '\n}\n'
     tmp = cached + f'.tmp{os.getpid()}'
-    open(tmp, 'w').write(p.stdout)
+    open(tmp, 'w').write(out_text)
     os.replace(tmp, cached)
     # keep the cache small
-    olds = sorted((f for f in os.listdir(cache_dir) if f.startswith('expanded-')),
+    olds = sorted((f for f in os.listdir(cache_dir) if f.startswith('expanded')),
                   key=lambda f: os.path.getmtime(os.path.join(cache_dir, f)))
     for f in olds[:-12]:
         try:
             os.remove(os.path.join(cache_dir, f))
         except OSError:
             pass
-    return p.stdout, {'fingerprint': fp, 'cache_hit': False, 'wall_s': round(time.time() - t0, 1)}
+    return out_text, {'fingerprint': fp, 'cache_hit': False, 'wall_s': round(time.time() - t0, 1)}
 
 
 # --------------------------------------------------------------------------------------------
@@ -234,7 +263,8 @@ class Crate:
                     k = i
                     while k < n and toks[k].text != ';':
                         k += 1
-                    out.append(('::'.join(m for m, _ in stack), toks[j:k + 1]))
+                    if not (stack and stack[0][0].startswith('__dep_')):
+                        out.append(('::'.join(m for m, _ in stack), toks[j:k + 1]))
             i += 1
         return out
 
